@@ -197,11 +197,15 @@ func (r *RoundRobin) UpsertServer(u *url.URL, options ...ServerOption) error {
 	}
 
 	if s, _ := r.findServerByURL(u); s != nil {
+		// The options work on a copy: when one of them fails the server is left as it was.
+		updated := *s
 		for _, o := range options {
-			if err := o(s); err != nil {
+			if err := o(&updated); err != nil {
 				return err
 			}
 		}
+		// Only the weight is taken over: NextServer reads the url of a server it was handed without the lock.
+		s.weight = updated.weight
 		r.resetState()
 		return nil
 	}
